@@ -43,6 +43,14 @@ impl<T: DirectiveKind> IgnoreDirective<T> {
     &self.codes
   }
 
+  /// The codes of this directive in a fixed (lexicographic) order, so that
+  /// reports derived from them do not depend on hash-map iteration order.
+  pub fn sorted_codes(&self) -> Vec<(&String, &CodeStatus)> {
+    let mut codes: Vec<_> = self.codes.iter().collect();
+    codes.sort_by(|a, b| a.0.cmp(b.0));
+    codes
+  }
+
   pub fn has_code(&self, code: &str) -> bool {
     self.codes.contains_key(code)
   }
